@@ -13,6 +13,8 @@ def handle(p):
     vmin, vmax = _f(p["vmin"]), _f(p["vmax"])
     xs = np.array([[_f(h) for h in p["xs"]]], dtype=float).astype(p.get("frame", "float64"))
     kind, path = p["kind"], p.get("path", "model")
+    dt = p.get("data_type")            # simple only: width of an explicit output type, or None
+    n_str, n_noi = p.get("n_strengths", bits), p.get("n_noises", bits)
     try:
         with np.errstate(all="ignore"):
             if path == "model":
@@ -25,20 +27,24 @@ def handle(p):
                 det.signal.array = xs.copy()
                 if kind == "simple":
                     from pyxel.models.readout_electronics import simple_adc
-                    simple_adc(det)
+                    if dt is None:
+                        simple_adc(det)
+                    else:
+                        simple_adc(det, data_type=f"uint{dt}")
                 elif kind == "sar":
                     from pyxel.models.readout_electronics import sar_adc
                     sar_adc(det)
                 else:
                     from pyxel.models.readout_electronics import sar_adc_with_noise
-                    sar_adc_with_noise(det, strengths=tuple([0.0] * bits), noises=tuple([0.0] * bits))
+                    sar_adc_with_noise(det, strengths=tuple([0.0] * n_str), noises=tuple([0.0] * n_noi))
                 out = det.image.array
             else:
                 from pyxel.util import get_dtype
                 if kind == "simple":
                     from pyxel.models.readout_electronics.simple_adc import apply_simple_adc
                     out = apply_simple_adc(signal=xs.copy(), bit_resolution=bits, voltage_min=vmin,
-                                           voltage_max=vmax, dtype=get_dtype(bits))
+                                           voltage_max=vmax,
+                                           dtype=get_dtype(bits) if dt is None else np.dtype(f"uint{dt}"))
                 elif kind == "sar":
                     from pyxel.models.readout_electronics.sar_adc import apply_sar_adc
                     out = apply_sar_adc(signal_2d=xs.copy(), num_rows=1, num_cols=xs.shape[1],
